@@ -122,7 +122,22 @@ def _run_check(prop, src_dir, tmp):
     p = subprocess.run([sys.executable, CHECK, prop, '--tier', 'quick'] + BUDGET.get(prop, []), stdout=subprocess.PIPE, stderr=subprocess.STDOUT,
                        env=env, text=True, timeout=3600)
     classes = sorted({l.split('class=')[1].split(' ')[0] for l in p.stdout.splitlines() if 'class=' in l})
-    return p.returncode, classes, p.stdout[-800:]
+    tail = p.stdout[-800:]
+    rc = p.returncode
+    if rc == 1:
+        # replay contract: the first replay file reproduces against the defective tree (exit 1) in a fresh process and
+        # is judged "held" against the unchanged tree (exit 0)
+        replays = sorted(glob.glob(os.path.join(tmp, f'{prop}-*.json')))
+        if replays:
+            r1 = subprocess.run([sys.executable, CHECK, prop, '--replay', replays[0]], stdout=subprocess.PIPE, stderr=subprocess.STDOUT, env=env, text=True, timeout=1800)
+            env2 = dict(env)
+            env2.pop('VERIF_REPO_SRC')
+            r2 = subprocess.run([sys.executable, CHECK, prop, '--replay', replays[0]], stdout=subprocess.PIPE, stderr=subprocess.STDOUT, env=env2, text=True, timeout=1800)
+            classes.append(f'replay(defective)={r1.returncode},replay(clean)={r2.returncode}')
+            if r1.returncode != 1 or r2.returncode != 0:
+                rc = 2
+                tail += ' REPLAY-CONTRACT-BROKEN ' + r1.stdout[-300:] + ' | ' + r2.stdout[-300:]
+    return rc, classes, tail
 
 
 def _evaluate(name, checks, apply_fn, expect_violation):
@@ -169,7 +184,7 @@ def _job(item):
     def apply_patch(src):
         r = subprocess.run(['patch', '-p1', '-s', '-d', os.path.dirname(src), '-i', patch], stdout=subprocess.PIPE, stderr=subprocess.STDOUT)
         return r.returncode == 0
-    return _evaluate(name, checks, apply_patch, expect_violation=True)
+    return _evaluate(name, checks, apply_patch, expect_violation=not name.startswith('r-'))
 
 
 def run_catalogue():
@@ -179,6 +194,10 @@ def run_catalogue():
         sid = os.path.basename(os.path.dirname(meta_path))
         meta = json.load(open(meta_path))
         items.append(('patch', 'seeded-' + sid, [meta['property']], os.path.join(os.path.dirname(meta_path), 'patch.diff')))
+    for meta_path in sorted(glob.glob(os.path.join(engine.VERIF, 'seeded', 'refactors', '*', 'meta.json'))):
+        sid = os.path.basename(os.path.dirname(meta_path))
+        meta = json.load(open(meta_path))
+        items.append(('patch', 'r-agent-' + sid, meta['must_stay_green'], os.path.join(os.path.dirname(meta_path), 'patch.diff')))
     failures = 0
     # the checks parallelise internally; run the catalogue sequentially
     for item in items:
